@@ -72,9 +72,21 @@ func genTopo(r *vlib.Rand) *topo {
 		mtus = []int{1400}
 	}
 	nISD := 1 + r.Intn(2)
-	asCtr := 0x110
+	if r.Chance(10) {
+		nISD = 3
+	}
+	// AS numbers are only unique within an ISD: in most multi-ISD topologies every ISD numbers its
+	// ASes from the same base, so that e.g. 1-ff00:0:111 and 2-ff00:0:111 are different ASes with the
+	// same AS number (anything keyed on the AS number instead of the ISD-AS confuses them).
+	sharedNumbers := nISD > 1 && r.Chance(75)
+	ctr := map[int]int{}
 	mk := func(isd int, core bool, level int) int {
-		asCtr++
+		k := 0
+		if sharedNumbers {
+			k = isd
+		}
+		ctr[k]++
+		asCtr := 0x110 + ctr[k]
 		t.ases = append(t.ases, &asN{ia: addr.MustIAFrom(addr.ISD(isd), addr.AS(0xff0000000000+uint64(asCtr))),
 			core: core, mtu: mtus[r.Intn(len(mtus))], level: level, nextI: uint16(r.Intn(4))})
 		return len(t.ases) - 1
@@ -966,7 +978,7 @@ func replayOp(file string) string {
 
 func main() {
 	e := vlib.Init()
-	e.Rule = "random topologies (1-2 ISDs, 1-4 cores with parallel core links, up to 3 levels of multi-parent " +
+	e.Rule = "random topologies (1-3 ISDs, AS numbers reused across ISDs in most multi-ISD topologies, 1-4 cores with parallel core links, up to 3 levels of multi-parent " +
 		"children, parallel parent links, peering links between any non-core pair) -> beacon segments built as " +
 		"seg.PathSegment along every loop-free walk (random timestamps, expiries, MACs, per-link MTUs, peer entries " +
 		"randomly withheld; every sixteenth topology is beaconed by the real beaconing.DefaultExtender instead) -> per case a random (src,dst), random subsets of the segments ending at src / dst / core " +
